@@ -117,7 +117,8 @@ def make_config(rng, darsia, idx):
     payload = ["scalar", "vector", "series", "series_vector", "scalar"][(idx // 11) % 5]
     base = {1: [12], 2: [4, 6], 3: [2, 4, 2]}[dim]
     shape = [int(b * rng.integers(1, 3)) for b in base]
-    h = [float(10 ** rng.uniform(-1.5, 1.5)) for _ in range(dim)]
+    # voxel sizes from sub-millimetre (lab images in metres) to tens of units
+    h = [float(10 ** rng.uniform(-1.5, 1.5)) for _ in range(dim)] if idx % 3 else [float(10 ** rng.uniform(-4.0, -2.0)) for _ in range(dim)]
     dims = [shape[d] * h[d] for d in range(dim)]
     geo_kw = dict(space_dim=dim, num_voxels=list(shape))
     if form == "dimensions":
